@@ -287,7 +287,8 @@ class JsonChecker(object):
 
     def mismatch(self, sig, what, kind, src, params, di):
         self.ctx.mismatch(sig, '[%s] %s' % (self.mode, what),
-                          {'what': 'json', 'mode': self.mode, 'kind': kind, 'src': src, 'params': params, 'doc': self.t['docs'][di]})
+                          {'what': 'json', 'mode': self.mode, 'kind': kind, 'src': src, 'params': params, 'doc': self.t['docs'][di],
+                           'reported': what})
 
     def error_signature(self, keys, a, di):
         why = a['path'].get('why')
@@ -322,6 +323,9 @@ class JsonChecker(object):
             self.c['cells'] += 1
             if exp[0] == 'val':
                 self.c['nontrivial'].add((kind, a['path']['t'], a['path'].get('why')))
+            if exp[0] == 'val' and rid in got and same(got[rid], exp[1]) and di % 17 == ki % 17 and isinstance(exp[1], (list, dict, str)):
+                self.ctx.sample({'mode': self.mode, 'query': src + ' for x in J', 'params': params, 'document': self.docs[di],
+                                 'expected_by_tlc': exp[1], 'pony': got[rid]}, limit=4)
             if rid not in got or not same(got[rid], exp[1]):
                 self.mismatch(sig_of(a, got.get(rid, '<no row>')), '%s for x in J gives %r for the document %r, Python gives %r' % (
                     src, got.get(rid, '<no row>'), self.docs[di], exp[1]) + (' (params %r)' % params if params else ''),
@@ -349,6 +353,9 @@ class JsonChecker(object):
                 continue
             self.c['cells'] += 1
             self.c['nontrivial'].add((kind, a['path']['t'], exp))
+            if (rid in got) == (exp == 'T') and exp == 'T' and kind == 'cmp' and di % 13 == ki % 13:
+                self.ctx.sample({'mode': self.mode, 'query': src, 'params': params, 'document': self.docs[di],
+                                 'expected_by_tlc': 'selected', 'pony': 'selected'}, limit=7)
             if (rid in got) != (exp == 'T'):
                 self.mismatch(sig_of(a, exp), '%s %s the document %r, in Python the condition is %s' % (
                     src, 'selects' if rid in got else 'does not select', self.docs[di], exp == 'T') +
@@ -604,7 +611,6 @@ def run(ctx):
                 counters['statements'] += ac.runner.executed
     check_paths(ctx, t, counters)
     nontrivial = counters.pop('nontrivial')
-    ctx.sample({'document': py(t['docs'][len(t['docs']) // 2]), 'keys': [py(k) for k in t['keys'][len(t['keys']) // 2]]})
     ctx.coverage.update({
         'evaluations': counters['cells'] + counters['path_roundtrips'] + counters['pg_judged'],
         'distinct_nontrivial': len(nontrivial),
@@ -632,6 +638,8 @@ def run(ctx):
 
 
 def replay(ctx, rep):
+    if rep.get('reported'):
+        print('reported: %s' % rep['reported'])
     if rep['what'] == 'law':
         text = SQLBuilder.eval_json_path(rep['keys'])
         print('eval_json_path(%r) = %r; _parse_path -> %r' % (rep['keys'], text, pony_sqlite._parse_path(text)))
